@@ -237,6 +237,7 @@ package binary
 //@   ensures head: forall i :: 0 <= i && i < pos ==> r0[i] == old(b[i])
 //@   ensures prefix: forall k :: 0 <= k && k < protowire.vsize(uint64(len(b) - pos - 1)) ==> r0[pos+k] == protowire.venc(uint64(len(b) - pos - 1), k)
 //@   ensures payload: forall i :: 0 <= i && i < len(b) - pos - 1 ==> r0[pos + protowire.vsize(uint64(len(b) - pos - 1)) + i] == old(b[pos+1+i])
+//@   ensures mem: (same(r0, b) && cap(r0) == cap(b)) || fresh(r0)
 //@   modifies bytes(b)
 
 // ---- writers -------------------------------------------------------------------------------------------
@@ -317,6 +318,7 @@ package binary
 //@   ensures enc: num >= 1 && num <= 536870911 ==> forall k :: 0 <= k && k < protowire.vsize(uint64(num)<<3 | uint64(typ&7)) ==> \
 //@       p.Buf[old(len(p.Buf))+k] == protowire.venc(uint64(num)<<3 | uint64(typ&7), k)
 //@   ensures read: p.Read == old(p.Read)
+//@   ensures mem: (same(p.Buf, old(p.Buf)) && cap(p.Buf) == old(cap(p.Buf))) || fresh(p.Buf)
 //@   modifies p.Buf, bytes(p.Buf)
 
 // ---- descriptor-driven scalar reader: one reader per kind, the same one the writer mirrors -----------------
